@@ -187,11 +187,11 @@ CHECKS["C20"] = {
             "wildcard/specific listen address: fresh socket on a port no live allocation of the history holds, requested = bound = advertised, relay IP advertised, held requested port fails cleanly (udp), Close frees. "
             "A class is (net, range-size class, port position) / (generator, network, mode, outcome) / (MaxRetries, live-before, outcome, Intn calls). (vi) manager: Manager.CreateAllocation x generators x udp4/tcp4/udp6/tcp6 x listening addresses x requested port {none, six values}: the allocation's RelayAddr names the one socket that was bound, on the requested port when one was requested; a second UDP allocation requesting a held port fails cleanly; DeleteAllocation frees the port.",
     "parts": [A("range", "./checks/c20", "TestC20Range", budget={"quick": 60, "thorough": 1500}),
-              A("requested", "./checks/c20", "TestC20Requested", budget={"quick": 60, "thorough": 120}),
-              A("filldrain", "./checks/c20", "TestC20FillDrain", budget={"quick": 60, "thorough": 900}),
-              A("filldrain-top", "./checks/c20", "TestC20FillDrainTop", budget={"quick": 60, "thorough": 900}),
-              A("histories", "./checks/c20", "TestC20Histories", budget={"quick": 60, "thorough": 900}),
-              A("manager", "./checks/c20", "TestC20Manager", budget={"quick": 30, "thorough": 60})],
+              A("requested", "./checks/c20", "TestC20Requested", budget={"quick": 60, "thorough": 120}, hard_timeout={"quick": 150, "thorough": 400}),
+              A("filldrain", "./checks/c20", "TestC20FillDrain", budget={"quick": 60, "thorough": 900}, hard_timeout={"quick": 150, "thorough": 2000}),
+              A("filldrain-top", "./checks/c20", "TestC20FillDrainTop", budget={"quick": 60, "thorough": 900}, hard_timeout={"quick": 150, "thorough": 2000}),
+              A("histories", "./checks/c20", "TestC20Histories", budget={"quick": 60, "thorough": 900}, hard_timeout={"quick": 150, "thorough": 2000}),
+              A("manager", "./checks/c20", "TestC20Manager", budget={"quick": 30, "thorough": 60}, hard_timeout={"quick": 150, "thorough": 400})],
 }
 
 CHECKS["C03"] = {
